@@ -6,8 +6,16 @@ use log::{debug, error, info, trace, warn};
 use once_cell::sync::Lazy;
 use std::collections::{HashMap, VecDeque};
 use std::sync::{atomic::AtomicUsize, Arc};
+#[cfg(not(pgcat_verif))]
 use std::time::Instant;
+#[cfg(pgcat_verif)]
+use tokio::time::Instant;
 use tokio::io::{split, AsyncReadExt, BufReader, ReadHalf, WriteHalf};
+#[cfg(pgcat_verif)]
+use simcore::net::TcpStream;
+#[cfg(pgcat_verif)]
+use simcore::rand_shim as rand;
+#[cfg(not(pgcat_verif))]
 use tokio::net::TcpStream;
 use tokio::sync::broadcast::Receiver;
 use tokio::sync::mpsc::Sender;
@@ -1058,11 +1066,15 @@ where
 
             // Check if the pool is paused and wait until it's resumed.
             pool.wait_paused().await;
+            #[cfg(pgcat_verif)]
+            simcore::yield_point("client.after_wait_paused").await;
 
             // Refresh pool information, something might have changed.
             pool = self.get_pool().await?;
             query_router.update_pool_settings(&pool.settings);
 
+            #[cfg(pgcat_verif)]
+            simcore::yield_point("client.before_get").await;
             debug!("Waiting for connection from pool");
             if !self.admin {
                 self.stats.waiting();
@@ -1140,6 +1152,8 @@ where
             // Server is assigned to the client in case the client wants to
             // cancel a query later.
             server.claim(self.process_id, self.secret_key);
+            #[cfg(pgcat_verif)]
+            simcore::yield_point("client.after_claim").await;
             self.connected_to_server = true;
 
             // Update statistics
@@ -1617,6 +1631,8 @@ where
             server.stats().idle();
             self.connected_to_server = false;
 
+            #[cfg(pgcat_verif)]
+            simcore::yield_point("client.before_release").await;
             self.release();
             self.stats.idle();
         }
